@@ -69,6 +69,53 @@ def gen_peaks(r, p, n):
     return sc, fc, om
 
 
+HISTORY = {}
+
+
+def python_threads(run, seed, mods, nthreads, iters):
+    """several Python threads, each updating the geometry of its own columnfile with its own parameters; every
+    result must equal what the same call gives when run alone"""
+    import sys, threading
+    transform, columnfile, parameters, cImageD11, pbp = mods
+    jobs = []
+    for k in range(nthreads):
+        r = rng(seed, "C01", "pythr", k)
+        p = gen_pars(r, int(r.integers(8)), int(r.integers(1 << len(SW))))
+        sc, fc, om = gen_peaks(r, p, 400)
+        cf = columnfile.colfile_from_dict({"sc": sc, "fc": fc, "omega": om})
+        cf.parameters = parameters.parameters(**p)
+        cf.updateGeometry(fast=True)
+        want = {c: np.array(cf.getcolumn(c)) for c in COLS}
+        jobs.append((p, sc, fc, om, want))
+    bad = []
+    old = sys.getswitchinterval()
+    sys.setswitchinterval(1e-5)
+
+    def work(k):
+        p, sc, fc, om, want = jobs[k]
+        for it in range(iters):
+            cf = columnfile.colfile_from_dict({"sc": sc.copy(), "fc": fc.copy(), "omega": om.copy()})
+            cf.parameters = parameters.parameters(**p)
+            cf.updateGeometry(fast=True)
+            for c in COLS:
+                if not np.array_equal(cf.getcolumn(c), want[c]):
+                    bad.append((k, it, c))
+                    return
+    try:
+        ths = [threading.Thread(target=work, args=(k,)) for k in range(nthreads)]
+        [t.start() for t in ths]
+        [t.join() for t in ths]
+    finally:
+        sys.setswitchinterval(old)
+    run.count("python_thread_updates", nthreads * iters)
+    if bad:
+        k, it, c = bad[0]
+        run.violation("columnfile.updateGeometry:python-threads",
+                      "column %s computed in thread %d (iteration %d) differs from the same call run alone "
+                      "(%d threads, each with its own columnfile and parameters)" % (c, k, it, nthreads),
+                      dict(threads=nthreads, index=-1, flip=0, bits=0, n=400))
+
+
 class Cmp(object):
     def __init__(self, run, p, desc):
         self.run, self.p, self.desc = run, p, desc
@@ -135,11 +182,24 @@ def one_case(run, seed, idx, flip, bits, n, mods):
 
     # --- 1. C fast path through Ctransform
     ct = transform.Ctransform(p)
+    # history: the computer object of the PREVIOUS case is still alive; building another one must not change what it
+    # computes (objects for different parameter sets coexist in refinement loops)
+    prev = HISTORY.get("prev")
+    if prev is not None:
+        pct, psc, pfc, pom, pt, pxyz, pgeo = prev
+        xyz2 = pct.sf2xyz(psc, pfc)
+        geo2 = pct.xyz2geometry(xyz2, pom, *pt)
+        run.count("interleaved_instance_checks")
+        if not (np.array_equal(xyz2, pxyz) and np.array_equal(geo2, pgeo)):
+            run.violation("Ctransform:instances-interfere",
+                          "a Ctransform object gives different results after another one (other parameters) was constructed",
+                          dict(desc, pars=p))
     xyzC = ct.sf2xyz(sc, fc)
     geoC = ct.xyz2geometry(xyzC, om, *t)
     colsC = dict(xl=xyzC[:, 0], yl=xyzC[:, 1], zl=xyzC[:, 2], tth=geoC[:, 0], eta=geoC[:, 1],
                  ds=geoC[:, 2], gx=geoC[:, 3], gy=geoC[:, 4], gz=geoC[:, 5])
     cmpcols("Ctransform.sf2xyz+xyz2geometry", colsC.get)
+    HISTORY["prev"] = (ct, sc.copy(), fc.copy(), om.copy(), t, xyzC.copy(), geoC.copy())
     gvC = ct.xyz2gv(xyzC, om, *t)
     for j, nm in enumerate(("gx", "gy", "gz")):
         c.chk("Ctransform.xyz2gv", nm, gvC[:, j], refcols[nm], g_tol)
@@ -281,6 +341,9 @@ def check(run, replay=None):
             n = 5000
         one_case(run, seed, idx, f, b, n, mods)
     run.extra["classes_planned"] = len(set(plan))
+    for nthr in (2, 4, 8):
+        python_threads(run, seed + nthr, mods, nthr, 40 if run.tier == "quick" else 400)
+    run.require_counter("interleaved_instance_checks", 100)
     from .. import sched_kernels
     sched_kernels.attach(run, ["compute_gv", "compute_geometry", "compute_xlylzl"], 24 if run.tier == "quick" else 240,
                          [[1, 0], [2, 1], [4, 1], [64, 1]], "cdiffraction")
